@@ -490,6 +490,11 @@ func (c *Ctx) run() {
 		if c.err != nil {
 			return
 		}
+		// reach may have narrowed inside the block (inlined closure, range-over-func call,
+		// no-return callee): successors are reached under the narrowed condition
+		if c.curReach != "false" {
+			reach[b] = c.curReach
+		}
 		exit[b] = bst
 	}
 }
@@ -671,7 +676,10 @@ func (c *Ctx) checkInvariant(h *ssa.BasicBlock, ord, predIdx int, st *State, whi
 		if label == "" {
 			label = fmt.Sprint(i + 1)
 		}
-		c.addObl("F", fmt.Sprintf("%s.loop%d.inv[%s].%s", c.fnName(), ord, label, which), cond, inv.Src)
+		o := c.addObl("F", fmt.Sprintf("%s.loop%d.inv[%s].%s", c.fnName(), ord, label, which), cond, inv.Src)
+		if len(inv.Props) > 0 {
+			o.Props = inv.Props
+		}
 	}
 }
 
@@ -685,6 +693,19 @@ func (c *Ctx) backEdge(from *ssa.BasicBlock, h *ssa.BasicBlock, st *State, li *l
 		}
 	}
 	c.checkInvariant(h, li.ord, predIdx, st, "preserved")
+	// "loop N iteration e": e must hold at the end of every iteration (names are those of
+	// the iteration just finished)
+	for i, cl := range c.con.LoopIter[li.ord] {
+		env := c.baseEnv(st, c.entry)
+		label := cl.Label
+		if label == "" {
+			label = fmt.Sprint(i + 1)
+		}
+		o := c.addObl("F", fmt.Sprintf("%s.loop%d.iteration[%s]", c.fnName(), li.ord, label), c.evalBool(cl.E, env, "loop iteration"), cl.Src)
+		if len(cl.Props) > 0 {
+			o.Props = cl.Props
+		}
+	}
 	if d := c.con.LoopDec[li.ord]; d != nil && li.decHead != nil {
 		env := c.baseEnv(st, c.entry)
 		c.bindLoopNames(env, h, st, predIdx, st)
@@ -841,7 +862,10 @@ func (c *Ctx) doReturn(x *ssa.Return, st *State) {
 			label = fmt.Sprint(i + 1)
 		}
 		cond := c.evalBool(e.E, env, "ensures")
-		c.addObl("F", fmt.Sprintf("%s.post[%s]", c.fnName(), label), cond, e.Src)
+		o := c.addObl("F", fmt.Sprintf("%s.post[%s]", c.fnName(), label), cond, e.Src)
+		if len(e.Props) > 0 {
+			o.Props = e.Props
+		}
 	}
 	if c.con.AssignsSet {
 		c.checkFrame(st)
